@@ -129,6 +129,7 @@ func (s *Server) serve(ctx context.Context, listener net.Listener, handler Modbu
 	// listener must be known to Shutdown and Addr before anyone can learn (from OnServeFunc) that server is up
 	simBeforeLock(&s.mu, true)
 	s.mu.Lock()
+	simAfterLock(&s.mu)
 	s.listener = l
 	alreadyShutdown := s.isShutdown.Load()
 	s.mu.Unlock()
@@ -233,6 +234,7 @@ func (s *Server) trackConn(c *connection, isAdd bool) {
 	// this is how http.Server does it
 	simBeforeLock(&s.mu, true)
 	s.mu.Lock()
+	simAfterLock(&s.mu)
 	defer s.mu.Unlock()
 
 	if s.activeConnections == nil {
@@ -311,6 +313,7 @@ func (c *connection) handle(ctx context.Context) {
 func (s *Server) Addr() net.Addr {
 	simBeforeLock(&s.mu, false)
 	s.mu.RLock()
+	simAfterLock(&s.mu)
 	defer s.mu.RUnlock()
 
 	return s.listener.Addr()
@@ -321,6 +324,7 @@ func (s *Server) Addr() net.Addr {
 func (s *Server) Shutdown(ctx context.Context) error {
 	simBeforeLock(&s.mu, true)
 	s.mu.Lock()
+	simAfterLock(&s.mu)
 	defer s.mu.Unlock()
 	s.isShutdown.Store(true)
 
